@@ -1,9 +1,13 @@
 pub mod c01;
+pub mod c02;
+pub mod c03;
+pub mod c10;
+pub mod hist;
 
 use crate::runner::PropDef;
 
 pub fn all() -> Vec<PropDef> {
-    vec![c01::def()]
+    vec![c01::def(), c02::def(), c03::def(), c10::def()]
 }
 
 pub fn find(id: &str) -> Option<PropDef> {
